@@ -1,6 +1,6 @@
 (* Proofs about Model/Tree.v (property C01, used by C02 C05 C09 C10): parsing the lines that the
    serialiser emits for a tree rebuilds the tree's normal form, for every tree inside the guards. *)
-Require Import Lib.Base Lib.Chain Gen.Gen_parser Gen.Gen_cal Model.Text Model.Params Model.Fold Model.Contentline Model.Tree.
+Require Import Lib.Base Lib.Chain Gen.Gen_parser Gen.Gen_cal Model.Text Model.Params Model.Fold Model.Contentline Model.Sort Model.Tree.
 Require Import Proofs.ChainProofs Proofs.ReplaceProofs Proofs.ParamsProofs Proofs.ContentlineProofs.
 From Coq Require Import Lia Arith Permutation String.
 
